@@ -431,7 +431,8 @@ impl Runner {
         let mut master = Rng::new(seed);
         for _ in 0..count {
             let mut rng = master.fork();
-            let limit: u32 = *rng.pick(&[1024u32, 2048, 4096, 65536]);
+            // now and then a limit above 64 KiB: bodies whose length does not fit 16 bits
+            let limit: u32 = if rng.chance(1, 25) { 80000 } else { *rng.pick(&[1024u32, 2048, 4096, 65536]) };
             self.exec(&format!("new {}", limit));
             let mut g = GenState::new(&mut rng, &p, limit);
             let n = rng.range(p.len.0, p.len.1);
